@@ -748,19 +748,18 @@ impl Node {
         let reg_addr = register.address();
         register.verify()?;
 
-        // if we don't have it locally return it
-        if !present_locally {
-            debug!("Register with addr {reg_addr:?} is valid and doesn't exist locally");
-            return Ok(Some(register.to_owned()));
-        }
-        debug!("Register with addr {reg_addr:?} exists locally, comparing with local version");
-
         let key = NetworkAddress::from_register_address(*reg_addr).to_record_key();
 
-        // get local register
+        // get local register: a version whose write has not been acknowledged yet is not listed as
+        // present, but it is what the store holds and must be merged with, not replaced
         let maybe_record = self.network().get_local_record(&key).await?;
         let record = match maybe_record {
             Some(r) => r,
+            // if we don't have it locally return it
+            None if !present_locally => {
+                debug!("Register with addr {reg_addr:?} is valid and doesn't exist locally");
+                return Ok(Some(register.to_owned()));
+            }
             None => {
                 error!("Register with addr {reg_addr:?} already exists locally, but not found in local storage");
                 return Err(Error::InvalidRequest(format!(
@@ -768,6 +767,7 @@ impl Node {
                 )));
             }
         };
+        debug!("Register with addr {reg_addr:?} exists locally, comparing with local version");
         let local_register: SignedRegister = try_deserialize_record(&record)?;
 
         // merge the two registers
